@@ -154,6 +154,18 @@ template <int B> struct Blk {
                 } else {
                     Dense Bm = bmat(amg, n, &l);
                     for (auto &row : Bm) for (auto &v : row) if (v.poison) { r.fail(what + "apply left an entry of x unwritten"); break; }
+                    // scaling oracle (C02 "B(2^k A) = 2^-k B(A)", C02e): same parameters on 4 A: same number of levels, B(4 A) = B(A) / 4 exactly
+                    if (r.ok) {
+                        auto A4 = h.A; for (auto &v : A4.val) v = v * Q(4);
+                        const char *bad = nullptr;
+                        try {
+                            auto As4 = A4.crs();
+                            AMG amg4(amgcl::adapter::block_matrix<val>(*As4), prm);
+                            if (amgcl_verif::access::levels(amg4).size() != nl) bad = "scaling: the hierarchy of 4 A has a different number of levels than that of A";
+                            else { Dense B4 = bmat(amg4, n, nullptr); for (long i = 0; !bad && i < n; ++i) for (long j = 0; j < n; ++j) if (B4[i][j].poison || (B4[i][j] * Q(4)).v != Bm[i][j].v) { bad = "scaling: B(4 A) != B(A) / 4"; break; } }
+                        } catch (const std::exception &) { bad = "scaling: the hierarchy of A is built but the construction for 4 A throws"; }
+                        if (bad) r.fail(what + bad); else r.tag("scale4");
+                    }
                     if (r.ok && symcfg && t.pre_cycles >= 1) {
                         Dense Ad = dense(h.A);
                         auto bmat_of = [&](const BHdr &hh, const Tail &tt, size_t &nlv) { auto prm1 = params(hh, rp, tt); AMG amg1(amgcl::adapter::block_matrix<val>(*As), prm1); nlv = amgcl_verif::access::levels(amg1).size(); return bmat(amg1, n, nullptr); };
